@@ -227,6 +227,14 @@ pub fn run_line(line: &str, out: &mut String) {
             Some((t, wakes_all)) => {
                 if *t != text {
                     line.push_str(" ok:spec=0");
+                    // which sentence of which property: the count functions (C19), or the end of
+                    // the stream / upgrade (C03)
+                    if name == "counts" {
+                        line.push_str(" ok:counts=0");
+                    }
+                    if name == "upgrade" || ((name == "poll") && (t == "N" || text == "N")) {
+                        line.push_str(" ok:endspec=0");
+                    }
                 }
                 if *wakes_all {
                     for (k, was) in registered_before.iter().enumerate() {
